@@ -442,7 +442,7 @@ def execute(plan: dict[str, Any]) -> dict[str, Any]:
     probes["failing_ops"] = n_failing
     probes["multi_client_runs"] = 1 if n_clients > 1 else 0
     for d in sched.decisions:
-        if d[1] == "sw" and d[4].startswith("chart.py:34"):
+        if d[1] == "sw" and d[4].endswith(":Chart.__str__"):
             probes["preempted_inside_Chart.__str__"] = probes.get("preempted_inside_Chart.__str__", 0) + 1
     sched.record("violations", [v["sig"] for v in violations])
     return {
